@@ -226,9 +226,13 @@ impl TypedProgram {
         let single_array_as_multiple_parties = if fn_def.params.len() == 1 {
             let param = &fn_def.params[0];
             match &param.ty {
-                Type::Array(elem_ty, size) => Some((param, elem_ty, size)),
+                Type::Array(elem_ty, size) => Some((param, elem_ty, *size)),
                 Type::ArrayConst(elem_ty, size) => {
-                    Some((param, elem_ty, const_sizes.get(size).unwrap()))
+                    Some((param, elem_ty, *const_sizes.get(size).unwrap()))
+                }
+                Type::ArrayConstExpr(elem_ty, size) => {
+                    let size = resolve_const_expr_usize(size, &const_sizes, USIZE_BITS);
+                    Some((param, elem_ty, size))
                 }
                 _ => None,
             }
@@ -237,7 +241,7 @@ impl TypedProgram {
         };
         if let Some((param, elem_ty, size)) = single_array_as_multiple_parties {
             let mut wires = vec![];
-            for _ in 0..*size {
+            for _ in 0..size {
                 let type_size = elem_ty.size_in_bits_for_defs(self, &const_sizes);
                 for _ in 0..type_size {
                     wires.push(wire);
